@@ -135,6 +135,14 @@ type runnablePipeline struct {
 	t                *tomb.Tomb
 	backoff          *backoff.Backoff
 	recoveryAttempts *atomic.Int64
+
+	// userStop is set by Service.Stop(force=false) before the source nodes are
+	// told to stop. It marks this run as one a user deliberately asked to stop,
+	// so a non-fatal error that surfaces while the run drains finalizes it as
+	// StatusUserStopped instead of sending it to recovery. It is per run (not
+	// carried over to a restarted run). Mirrors pkg/lifecycle-poc's
+	// intentionalStop.
+	userStop atomic.Bool
 }
 
 // ConnectorService can fetch and create a connector instance, and report when
@@ -328,7 +336,15 @@ func (s *Service) Stop(ctx context.Context, pipelineID string, force bool) error
 
 	switch force {
 	case false:
-		return s.stopGraceful(ctx, rp, nil)
+		// mark the run as user-stopped BEFORE any node is told to stop, so the
+		// cleanup goroutine in runPipeline can't observe a drain error first
+		alreadyMarked := rp.userStop.Swap(true)
+		err := s.stopGraceful(ctx, rp, nil)
+		if err != nil && !alreadyMarked {
+			// the stop did not go through, the pipeline keeps running
+			rp.userStop.Store(false)
+		}
+		return err
 	case true:
 		return s.stopForceful(ctx, rp)
 	}
@@ -971,6 +987,19 @@ func (s *Service) runPipeline(ctx context.Context, rp *runnablePipeline) error {
 				// we use %+v to get the stack trace too
 				if err := s.pipelines.UpdateStatus(ctx, rp.pipeline.ID, pipeline.StatusDegraded, fmt.Sprintf("%+v", err)); err != nil {
 					return err
+				}
+			} else if rp.userStop.Load() {
+				// A user asked this run to stop (see Service.Stop) and a
+				// non-fatal error surfaced while it was draining. Recovering
+				// would restart a pipeline the user just stopped, so finalize
+				// it as user-stopped instead.
+				s.logger.Warn(ctx).
+					Err(err).
+					Str(log.PipelineIDField, rp.pipeline.ID).
+					Msg("pipeline failed while draining after a user-requested stop, not recovering")
+				err = nil
+				if updateErr := s.pipelines.UpdateStatus(ctx, rp.pipeline.ID, pipeline.StatusUserStopped, ""); updateErr != nil {
+					return updateErr
 				}
 			} else {
 				// try to recover the pipeline
